@@ -1541,8 +1541,8 @@ theorem isPodToItself_false_of_selfFree {s d : LPeer} (h : LPeer.SelfFree s d) {
       have : ¬ (p.name = q.name ∧ p.ns = q.ns) := h
       simp only [isPodToItself, Bool.and_eq_false_iff, beq_eq_false_iff_ne, ne_eq]
       by_cases h1 : p.name = q.name
-      · exact Or.inr (fun h2 => this ⟨h1, h2⟩)
-      · exact Or.inl h1
+      · exact Or.inl (Or.inr (fun h2 => this ⟨h1, h2⟩))
+      · exact Or.inl (Or.inl h1)
 
 /-- **one pair, two equivalent engines, similar peers**: the same connection set or error -/
 theorem peerConns_sim {e e' : Engine} (h : e.Equiv e') (hv : NPValid e.netpols)
